@@ -16,6 +16,7 @@ ASSUMPTIONS = ["the element validators behave as the C10 rules establish - their
 
 def run(project, rep):
     rep.run(H.b_rules, project, rep)
+    rep.run(H.b_r14_header_text_built_on_every_call, project, rep)
     from .. import rules_types as T
     rep.rule("B-R10", "the validators the header fields are declared with refuse what is outside their domain (T-R2, T-R3, T-R4)")
     rep.run(T.t_r2, project, rep)
@@ -27,3 +28,5 @@ def run(project, rep):
     from .. import rules_request as Q
     rep.rule("B-R13", "the header the client generates is made for the version asked for: a `version` parameter of a request method is never accepted and dropped (the version clause of Q-R1)")
     rep.run_only(("Q-R1",), Q.q_r1_params, project, rep, constructs=lambda c: c.endswith("(version)"))
+    rep.rule("B-R15", "the version a client is configured with is not changed by composing a request: no method of the client but the constructor stores self.version (the version clause of Q-R10) - a temporary swap that an exception leaves in place makes every later header of the wrong kind")
+    rep.run_only(("Q-R10",), Q.q_r10_builders_keep_no_state, project, rep, constructs=lambda c: ":self.version:" in c or c.endswith("no-state"))
